@@ -4,6 +4,7 @@
 #include "../../../../common/debug_messages.h"
 #include "../../core/interpreter.h"
 #include "../../evaluator/core/evaluator.h"
+#include "../../executors/assignments/const_check_helpers.h"
 #include "../../services/debug_service.h"
 #include "../common/operations.h"
 #include "../types/manager.h"
@@ -569,6 +570,10 @@ void StructAssignmentManager::assign_struct_member_struct(
     if (member_var->type != TYPE_STRUCT) {
         throw std::runtime_error("Member is not a struct: " + member_name);
     }
+
+    // s.r = o: s.r の中の初期化済みの const メンバーは上書きできない
+    AssignmentHelpers::check_struct_store_over_const_members(
+        *interpreter_, target_full_name, *member_var);
 
     // 構造体の型が一致するかチェック（型名が空の場合はスキップ）
     if (!member_var->struct_type_name.empty() &&
@@ -1290,6 +1295,10 @@ Variable *StructAssignmentManager::prepare_struct_literal_assignment(
         error_msg(DebugMsgId::CONST_REASSIGN_ERROR, var_name.c_str());
         throw std::runtime_error("Cannot assign to const struct: " + var_name);
     }
+
+    // r = {id: 9, v: 9}: 初期化済みの const メンバーは上書きできない
+    AssignmentHelpers::check_struct_store_over_const_members(*interpreter_,
+                                                             var_name, *var);
 
     // 親変数がconstの場合、すべてのstruct_membersと個別変数をconstにする（再帰的）
     if (var->is_const) {
